@@ -31,6 +31,10 @@ CHECKS['C19'] = ('3/C19', 'hotspot.calculate_temps, the clad split, expression e
                  'tables; identity at unity, >= nominal, monotone in output sigma, 1/input-sigma scaling and the cumulative structure are '
                  'SMT queries (square roots by an abstraction ladder with solver-proved lemma chains).')
 
+CHECKS['C15'] = ('3/C15', 'The real running-maximum updates (coolant, per-duct mid-wall, pin locations with radial profile) are applied '
+                 'one to three times from an arbitrary previous peak to arbitrary symbolic fields; every ordering is a path and the '
+                 'maximum / height / profile / untouched-duct claims are SMT queries; induction over the fold gives the sweep maximum.')
+
 NOT_APPLICABLE = {
     'C16': ('No symbolic dimension for a solver: process schedules/multiprocessing/file output, bitwise IEEE determinism, and '
             'object-identity/type mutation of the input dictionary on `is None`/key-presence branches (DESIGN section 4).'),
